@@ -102,6 +102,7 @@ def ob_trend(g, k, dname, idx):
         with env(allow_seed=True):
             res = build_result(g, k, direction)
             n = len(res.evolution)
+            before = [[(a.position, a.cost) for a in gen.agents] for gen in res.evolution]
             subsets = [None] + [list(s) for r in range(1, n + 1) for s in itertools.combinations(range(n), r)]
             for iters in subsets:
                 its = list(range(n)) if iters is None else iters
@@ -125,6 +126,10 @@ def ob_trend(g, k, dname, idx):
                 if U.best_agent_trend(res)[-1] != res.best_solution.cost:
                     return Failure("last-entry-of-best_agent_trend-is-not-best_solution.cost",
                                    trend=U.best_agent_trend(res), best=res.best_solution.cost)
+            # reading the history must not change it: generation k is still the population as it stood after cycle k
+            after = [[(a.position, a.cost) for a in gen.agents] for gen in res.evolution]
+            if after != before:
+                return Failure("trend-utilities-alter-the-recorded-history", before=before, after=after)
             return OK
     return f
 
